@@ -118,9 +118,12 @@ fn apply(g: &mut AstGrep<D>, op: &Op) -> Option<(usize, usize, Vec<u8>)> {
       Some((*pos, *del, ins.as_bytes().to_vec()))
     }
     Op::Replace { pattern, fix } => {
+      // the edit the library proposes is recorded for the reference splice; the document itself is
+      // changed through the FUSED call AstGrep::replace (find + make the edit + apply it)
       let e = g.root().replace(pattern.as_str(), fix.as_str())?;
       let rec = (e.position, e.deleted_length, e.inserted_text.clone());
-      g.edit(e).expect("edit");
+      let changed = g.replace(pattern.as_str(), fix.as_str()).expect("replace");
+      assert!(changed, "AstGrep::replace found nothing although Node::replace proposed an edit");
       Some(rec)
     }
   }
@@ -246,7 +249,8 @@ fn replaces(lang: &str) -> Vec<(&'static str, &'static str)> {
   match lang {
     "html" => vec![("<a>", "<b>")],
     "css" => vec![("a", "b")],
-    _ => vec![("a", "(a)"), ("$X + $Y", "$Y + $X"), ("1", "2\n")],
+    // (the last two: a replacement that is a proper PREFIX of the replaced text, and an empty one)
+    _ => vec![("a", "(a)"), ("$X + $Y", "$Y + $X"), ("1", "2\n"), ("$X + $Y", "$X"), ("b", "")],
   }
 }
 
